@@ -136,6 +136,7 @@ def _budget2(maxk):
 NUMS = ["7", "+7", "-7", ".5", "-.5", "0.5", "00.5", "7e1", "7E-1", "-7.5e+1", "1e0", "0", "-0", "+.5e1", "12.25",
         "3.0e-0"]
 SEPS = ["", " ", ",", " , ", "\t", "\n", "\r", "\f", "  ", ", ", " ,", "\n,\t"]
+SEPS3 = ["", " ", ",", " , ", "\t", "\n,", "\r"]
 WSPS = ["", " ", "\t", "\n", "\r", "\f", "  "]
 FLG = ["0", "1"]
 
@@ -171,11 +172,11 @@ class Tokens(SubCheck):
             parts.append(Mapped(Product([name], [tpl], A, S, B), lambda t: dict(ctx=t[0], d=t[1].format(a=t[2], s=t[3], b=t[4]))))
         if tier == "thorough":
             # triples: a s1 b s2 c s3 d  (two coordinate pairs after a move -> implicit lineto)
-            parts.append(Mapped(Product(NUMS, SEPS, NUMS, SEPS, NUMS),
+            parts.append(Mapped(Product(NUMS, SEPS3, NUMS, SEPS3, NUMS),
                                 lambda t: dict(ctx="triple-M", d="M%s%s%s%s%s,9" % t)))
-            parts.append(Mapped(Product(NUMS, SEPS, NUMS, SEPS, NUMS),
+            parts.append(Mapped(Product(NUMS, SEPS3, NUMS, SEPS3, NUMS),
                                 lambda t: dict(ctx="triple-q", d="M1,1 q2,%s%s%s%s%s" % t)))
-            parts.append(Mapped(Product(NUMS, SEPS, FLG, SEPS, FLG, SEPS, NUMS),
+            parts.append(Mapped(Product(NUMS, SEPS3, FLG, SEPS3, FLG, SEPS3, NUMS),
                                 lambda t: dict(ctx="arc-tail", d="M1,1 A5,8 %s%s%s%s%s%s%s,5" % t)))
         self.space = Concat(*parts)
         self.bounds = dict(contexts=len(CONTEXTS), numbers=len(NUMS), separators=len(SEPS),
